@@ -76,6 +76,51 @@ def find_trim(fn):
     return None
 
 
+def _module_funcs(tree):
+    return {n.name: n for n in tree.body if isinstance(n, ast.FunctionDef)}
+
+
+def _helper_calls(tree, fn):
+    """module-level functions of the same file that fn calls as `helper(a, b)` with two plain names and
+    that read the exception table: [(call node, FunctionDef)]"""
+    funcs = _module_funcs(tree)
+    out = []
+    for x in ast.walk(fn):
+        if (isinstance(x, ast.Call) and isinstance(x.func, ast.Name) and x.func.id in funcs and x.func.id != fn.name
+                and len(x.args) == 2 and not x.keywords and all(isinstance(a, ast.Name) for a in x.args)
+                and _calls(funcs[x.func.id], "_parse_exception_table")):
+            out.append((x, funcs[x.func.id]))
+    return out
+
+
+def find_trim_helper(tree, fn):
+    """The handler-depth scan extracted into a helper:
+         def helper(co, pos): for ... in _parse_exception_table(co): if <cond>: return depth
+                              return 0
+    Returns (call, helper def, loop, hit statements, default statements) or None."""
+    for call, h in _helper_calls(tree, fn):
+        if any(isinstance(x, ast.While) for x in ast.walk(h)):
+            continue
+        loops = [n for n in h.body if isinstance(n, ast.For) and _calls(n.iter, "_parse_exception_table")]
+        rets = [x for x in ast.walk(h) if isinstance(x, ast.Return)]
+        if len(loops) != 1 or len(rets) != 2 or not isinstance(h.body[-1], ast.Return):
+            continue
+        loop = loops[0]
+        if loop.orelse or len(loop.body) != 1 or not isinstance(loop.body[0], ast.If):
+            continue
+        return call, h, loop, loop.body[0].body, [h.body[-1]]
+    return None
+
+
+def find_walk_helper(tree, fn):
+    """The exception-table walk extracted into a helper(co, pos) that returns the block list."""
+    for call, h in _helper_calls(tree, fn):
+        if any(isinstance(x, ast.While) for x in ast.walk(h)) and any(
+                isinstance(x, ast.Attribute) and x.attr == "FinallyBlock" for x in ast.walk(h)):
+            return call, h
+    return None
+
+
 def load():
     path = os.path.join(REPO, "stackscope", "_lowlevel_cpython_311.py")
     tree = ast.parse(open(path).read())
@@ -94,14 +139,25 @@ def load():
         raise SnippetError("no `co = frame.f_code` in inspect_frame")
 
     # (1) trim: `for ... in _parse_exception_table(co): if <cond>: <d> = depth; break  else: <d> = 0`
+    import importlib
+    real = importlib.import_module("stackscope._lowlevel_cpython_311")
     found = find_trim(fn)
+    trim_helper = None
     if found is None:
-        raise SnippetError("handler-depth scan (loop over the exception table with a default of 0) not found in inspect_frame")
-    trim, _, depth_var, _ = found
-    free = [v for v in _loaded(trim) if v not in KNOWN and v != co_name and v not in _stored(trim)]
-    if len(free) != 1:
-        raise SnippetError("handler-depth scan depends on %r, expected exactly the instruction position" % (free,))
-    trim_lasti = free[0]
+        th = find_trim_helper(tree, fn)
+        if th is None:
+            raise SnippetError("handler-depth scan (loop over the exception table with a default of 0) not found in "
+                               "inspect_frame or in a helper it calls")
+        if th[0].args[0].id != co_name:
+            raise SnippetError("handler-depth helper is not called with the code object first")
+        trim_helper = getattr(real, th[1].name)      # pure: callable in isolation at every (code, position)
+        trim, depth_var, trim_lasti = [], "None", "_unused"
+    else:
+        trim, _, depth_var, _ = found
+        free = [v for v in _loaded(trim) if v not in KNOWN and v != co_name and v not in _stored(trim)]
+        if len(free) != 1:
+            raise SnippetError("handler-depth scan depends on %r, expected exactly the instruction position" % (free,))
+        trim_lasti = free[0]
 
     # (2) chain walk: the top-level statements from the first `<x> = list(_parse_exception_table(co))`
     #     after the retry loop up to the `<details>.blocks.reverse()` call
@@ -119,11 +175,21 @@ def load():
             end = i
             details_name = st.value.func.value.value.id
             break
+    walk_helper = None
     if start is None or end is None:
-        raise SnippetError("exception-table walk not found at the top level of inspect_frame")
+        wh = find_walk_helper(tree, fn)
+        if wh is None:
+            raise SnippetError("exception-table walk not found at the top level of inspect_frame or in a helper it calls")
+        if wh[0].args[0].id != co_name:
+            raise SnippetError("exception-table walk helper is not called with the code object first")
+        walk_helper = getattr(real, wh[1].name)
+        details_name = "details"
+        body, start, end = [ast.Pass()], 0, 0
     walk = body[start:end + 1]
     assigned = _stored(walk)
     free = [v for v in _loaded(walk) if v not in KNOWN and v not in assigned and v not in (co_name, details_name)]
+    if walk_helper is not None:
+        free = ["_unused2"]
     if len(free) != 1:
         raise SnippetError("exception-table walk depends on %r, expected exactly the accepted instruction position" % (free,))
     walk_lasti = free[0]
@@ -146,6 +212,8 @@ def load():
     exec(compile(mod, path + "<snippets>", "exec"), ns)
 
     def blocks(co, lasti):
+        if walk_helper is not None:
+            return list(walk_helper(co, lasti))
         return ns["_walk"](co, lasti, ll.FrameDetails())
 
-    return ns["_trim"], blocks
+    return (trim_helper if trim_helper is not None else ns["_trim"]), blocks
